@@ -202,6 +202,21 @@ func (ex *Exec) builtin(fr *Frame, st *State, site ssa.Instruction, b *ssa.Built
 		}
 	case "recover":
 		return zeroValue(anyType)
+	case "delete":
+		// delete(m, k): no-op on a nil map; otherwise k leaves the domain, the size shrinks iff k was present
+		m := args[0]
+		k := args[1].L[0]
+		tk := typeKey(m.T)
+		isNil := Eq(m.L[0], Int(0))
+		domAll := st.heapArrS("mapdom:"+tk, SArr2B)
+		dom := Select(domAll, m.L[0])
+		had := Select(dom, k)
+		st.Heap["mapdom:"+tk] = Ite(isNil, domAll, Store(domAll, m.L[0], Store(dom, k, tFalse)))
+		st.Dirty["H:mapdom:"+tk] = true
+		sz := st.heapArr("mapsize:"+tk, SInt)
+		st.Heap["mapsize:"+tk] = Ite(isNil, sz, Store(sz, m.L[0], Sub(Select(sz, m.L[0]), Ite(had, Int(1), Int(0)))))
+		st.Dirty["H:mapsize:"+tk] = true
+		return Value{}
 	case "close":
 		ch := args[0].L[0]
 		closed := Select(st.heapArr("#chanclosed", SBool), ch)
